@@ -563,6 +563,7 @@ fn placing_bodies(ctx: &Ctx, n: u64) {
         ("data_org_last", vec![".dseg", "\t.byte 2", "\t.org 0x100 + @0", ".cseg", "\t.dw @1"]),
         ("nested_org_last", vec!["\torg_last @0, @1"]),
     ];
+    let segment_macros = ".macro reserve\n\t.byte @0\n.endm\n.macro eedata\n\t.db low(@0), high(@0)\n.endm\n";
     fw::par_for(n, 16, |i| {
         let mut rng = Rng::for_case(ctx.seed, 0xC09_0, i);
         let mut src = String::from("; C09 placing bodies\n");
@@ -570,6 +571,7 @@ fn placing_bodies(ctx: &Ctx, n: u64) {
         for (name, body) in &macros {
             src.push_str(&format!(".macro {}\n{}\n.endm\n", name, body.join("\n")));
         }
+        src.push_str(segment_macros);
         let mut origin = 8i64;
         let calls = 2 + rng.usize(5);
         for k in 0..calls {
@@ -597,6 +599,13 @@ fn placing_bodies(ctx: &Ctx, n: u64) {
             if rng.chance(1, 3) {
                 both(&format!("\t.dw after_{}\n", calls - 1), &mut src, &mut hand);
             }
+        }
+        // calls written in the data and the EEPROM segment (a macro that reserves a variable, one that
+        // emits a record): the body is assembled in the segment of the call
+        if rng.chance(2, 3) {
+            let (n1, n2, w) = (1 + rng.range(0, 5), 1 + rng.range(0, 5), rng.range(0x100, 0xfff0));
+            src.push_str(&format!(".dseg\ndv_a:\n\treserve {}\ndv_b:\n\tReserve {}\ndv_c: .byte 1\n.eseg\nee_a:\n\teedata {}\nee_b: .db 1\n\teedata {} + 1\n.cseg\n\t.dw dv_a, dv_b, dv_c, ee_a, ee_b\n", n1, n2, w, w));
+            hand.push_str(&format!(".dseg\ndv_a:\n\t.byte {}\ndv_b:\n\t.byte {}\ndv_c: .byte 1\n.eseg\nee_a:\n\t.db low({}), high({})\nee_b: .db 1\n\t.db low({} + 1), high({} + 1)\n.cseg\n\t.dw dv_a, dv_b, dv_c, ee_a, ee_b\n", n1, n2, w, w, w, w));
         }
         both_end(&mut src, &mut hand);
         let a = fw::build_str(&src);
@@ -640,7 +649,7 @@ pub fn run(ctx: &Ctx) -> i32 {
     });
     fw::finish(
         ctx,
-        "programs with 1-4 macro definitions (0-10 parameters; bodies of ldi/mov/ld/st/ldd/std/out with register, index and displacement parameters, .dw/.db on parameters incl. inside larger expressions, .if on a parameter, nested calls passing parameters on, .dseg/.eseg switches returning to .cseg, lines differing only in the letter case of a string or character literal, emit-once blocks (.ifndef F / #define F / ... / .else) and #define flags set by one macro and tested by another; names in mixed case, .endm/.endmacro) and 1-6 calls in any letter case, before or after the definition, (1 in 3 repeated verbatim, directly or after another call) with registers, all nine index forms, Y/Z displacements and random expressions of every precedence as arguments; 1 in 6 programs calls an undefined macro or omits a used argument (must fail); fixed probes for the argument shapes the statement names; plus bodies that place things (.org as first, middle or last body line with origin and contents as parameters, in all three segments, also nested, the caller going on behind the call with labels referenced across calls) compared with the program written out; distinct_nontrivial = distinct program texts",
+        "programs with 1-4 macro definitions (0-10 parameters; bodies of ldi/mov/ld/st/ldd/std/out with register, index and displacement parameters, .dw/.db on parameters incl. inside larger expressions, .if on a parameter, nested calls passing parameters on, .dseg/.eseg switches returning to .cseg, lines differing only in the letter case of a string or character literal, emit-once blocks (.ifndef F / #define F / ... / .else) and #define flags set by one macro and tested by another; names in mixed case, .endm/.endmacro) and 1-6 calls in any letter case, before or after the definition, (1 in 3 repeated verbatim, directly or after another call) with registers, all nine index forms, Y/Z displacements and random expressions of every precedence as arguments; 1 in 6 programs calls an undefined macro or omits a used argument (must fail); fixed probes for the argument shapes the statement names; plus bodies that place things (.org as first, middle or last body line with origin and contents as parameters, in all three segments, also nested, the caller going on behind the call with labels referenced across calls; calls written under .dseg and .eseg) compared with the program written out; distinct_nontrivial = distinct program texts",
         &[
             "hand expansion is done on the IR (refmodel/layout.rs::expand_macros): an argument is substituted as a value (parenthesised when it lands inside a larger expression)",
             "a parameter used inside a larger expression is only called with atomic, parenthesised or function-call arguments; labels and messages inside bodies are not generated",
